@@ -107,6 +107,13 @@ pub fn judge_name(ty: &str, n: &str, ns_mode: u8) -> Option<Fail> {
             Out::Panic(m) => return Some(Fail::tagged("panicked", format!("{ty}:{path}"), format!("{path} path for {ty} name {n:?} panicked: {m}"))),
         }
     }
+    // `Purl::new` is the builder without further calls
+    if ns_mode == 0 {
+        let direct = obs::guard_res("Purl::new", || Purl::new(t, n)).map(|p| Snap::of(&p));
+        if direct != built {
+            return Some(Fail::tagged("new-differs-from-builder", ty, format!("Purl::new({ty}, {n:?}) gives {direct:?}, the builder gives {built:?}")));
+        }
+    }
     if parsed != built {
         return Some(Fail::tagged("paths-disagree", ty, format!("parser and builder disagree for {ty} name {n:?}: {parsed:?} vs {built:?}")));
     }
